@@ -274,18 +274,17 @@ class _VersionIndependentUnmarshaller:
 
     def t_long(self, save_ref, bytes_for_s=False):
         n = unpack("<i", self.fp.read(4))[0]
-        if n == 0:
-            return self.r_ref(long(0), save_ref)
         size = abs(n)
-        d = long(0)
+        d = 0
         for j in range(0, size):
             md = int(unpack("<h", self.fp.read(2))[0])
-            # This operation and turn "d" from a long back
-            # into an int.
             d += md << j * 15
-            d = long(d)
         if n < 0:
-            d = long(d * -1)
+            d = d * -1
+        # Only Python 2 has a separate long type (shown with an "L" suffix);
+        # in Python 3 bytecode this is a plain int.
+        if self.version_tuple < (3, 0):
+            d = long(d)
 
         return self.r_ref(d, save_ref)
 
